@@ -223,6 +223,9 @@ func raceMain(args []string) {
 			{"a.html", `<ul><li :range="i, account : accounts" :text="${i}:${account.name}">o</li></ul>`},
 			{"b.html", `<ol><li :range="k, o : orders" :text="${account}: ${o}">o</li></ol>`},
 			{"c.html", `<ol><li :range="k, o : orders"><b :text="${o}">o</b><i :if="${k == 1}" :text="${i}">o</i></li></ol>`},
+			// directive values that load but are rejected when they are interpreted: every execution gets the SAME error
+			{"d.html", `<h1>d</h1><p :with="a := ${x} b := ${y}" :text="${a}">o</p>`},
+			{"e.html", `<h1>e</h1><p :range="i, x, z : orders" :text="${x}">o</p><p :remove="nonsense">r</p>`},
 		}
 		for round := 0; round < *rounds; round++ {
 			rc := &renderCase{Files: files, Tpl: "a.html"}
@@ -239,7 +242,11 @@ func raceMain(args []string) {
 			}
 			jobs := make([]job, G)
 			for g := range jobs {
-				switch (g + round) % 4 {
+				switch (g + round) % 6 {
+				case 4:
+					jobs[g] = job{"d.html", map[string]any{"x": 1, "y": 2}, "<h1>d</h1> ERR"}
+				case 5:
+					jobs[g] = job{"e.html", map[string]any{"orders": []any{"x1"}}, "<h1>e</h1> ERR"}
 				case 0: // fails at the second item: the first item has been written
 					jobs[g] = job{"a.html", map[string]any{"accounts": []any{map[string]any{"name": "ann"}, map[string]any{"iban": "SECRET"}, map[string]any{"name": "zed"}}}, "<ul><li>1:ann</li><li> ERR"}
 				case 1:
@@ -258,9 +265,9 @@ func raceMain(args []string) {
 				err := t.Execute(w, jobs[g].data)
 				alone := strings.Join(w.chunks, "")
 				if err != nil {
-					alone += " ERR"
+					alone += " ERR " + err.Error()
 				}
-				if (err != nil) != strings.HasSuffix(jobs[g].want, " ERR") {
+				if (err != nil) != strings.HasSuffix(jobs[g].want, " ERR") && !(err == nil && jobs[g].tpl == "e.html") {
 					fmt.Println("RACE-RESULT " + `{"executions":0,"mismatches":1,"samples":["loopvars reference run has an unexpected outcome"]}`)
 					return
 				}
@@ -284,7 +291,7 @@ func raceMain(args []string) {
 					for k := 0; k < 4; k++ {
 						w := &chunkWriter{failAt: -1}
 						if err := t.Execute(w, jobs[g].data); err != nil {
-							got[g] = strings.Join(w.chunks, "") + " ERR"
+							got[g] = strings.Join(w.chunks, "") + " ERR " + err.Error()
 						} else {
 							got[g] = strings.Join(w.chunks, "")
 						}
@@ -408,7 +415,15 @@ func raceMain(args []string) {
 				want renderOut
 			}
 			jobs := make([]job, G)
+			serialStart := time.Now()
 			for g := 0; g < G; g++ {
+				// a case whose serial executions are expensive (deep data-bounded recursion under the race detector) is run
+				// with few goroutines: the budget of a round is bounded, the kind of case is still covered
+				if g == 4 && time.Since(serialStart) > 400*time.Millisecond {
+					G = 4
+					jobs = jobs[:4]
+					break
+				}
 				name := rc.Tpl
 				if r.p(40) && len(names) > 0 {
 					name = names[r.n(len(names))]
